@@ -47,7 +47,7 @@ class Scheduler:
         sch = self
 
         class FakeThread:
-            def __init__(self, target=None, args=(), kwargs=None):
+            def __init__(self, group=None, target=None, name=None, args=(), kwargs=None, *, daemon=None):
                 self.daemon = True
                 sch.real = _threading.Thread(target=target, args=args, kwargs=kwargs or {}, daemon=True)
 
